@@ -95,13 +95,18 @@ func (ms *Modules) Parse(data, name string) error {
 		return err
 	}
 	for _, s := range ss {
-		n, err := buildASTWithTypeDict(s, ms.typeDict)
+		// Typedefs are collected in a scratch dictionary and registered
+		// only once the statement has been accepted, so that a rejected
+		// statement leaves nothing behind.
+		types := newTypeDictionary()
+		n, err := buildASTWithTypeDict(s, types)
 		if err != nil {
 			return err
 		}
 		if err := ms.add(n); err != nil {
 			return err
 		}
+		ms.typeDict.adopt(types)
 	}
 	return nil
 }
